@@ -83,13 +83,19 @@ type layoutRun struct {
 var dateRe = regexp.MustCompile(`20[2-3][0-9]-[01][0-9]-[0-3][0-9]|[0-2][0-9]:[0-5][0-9]:[0-5][0-9]`)
 
 // writeGopath lays the programs out under a GOPATH (vendor: dependencies under vendor/).
-func writeGopath(e *Env, gp string, progs []*Program, vendor bool) error {
+// vendorAtPkg: the vendor directory sits in the injector package's own directory (the package
+// is the root of the tree the vendor directory serves) instead of the project root.
+func writeGopath(e *Env, gp string, progs []*Program, vendor bool, vendorAtPkg ...bool) error {
 	base := filepath.Join(gp, "src", filepath.FromSlash(ModulePath))
 	wireDir := filepath.Join(gp, "src", "github.com", "google", "wire")
 	trDir := filepath.Join(base, "tr")
+	vbase := filepath.Join(base, "vendor")
+	if vendor && len(vendorAtPkg) > 0 && vendorAtPkg[0] {
+		vbase = filepath.Join(base, progs[0].ID, progs[0].Pkgs[0].Dir, "vendor")
+	}
 	if vendor {
-		wireDir = filepath.Join(base, "vendor", "github.com", "google", "wire")
-		trDir = filepath.Join(base, "vendor", filepath.FromSlash(ModulePath), "tr")
+		wireDir = filepath.Join(vbase, "github.com", "google", "wire")
+		trDir = filepath.Join(vbase, filepath.FromSlash(ModulePath), "tr")
 	}
 	os.MkdirAll(wireDir, 0o755)
 	os.MkdirAll(trDir, 0o755)
@@ -106,7 +112,7 @@ func writeGopath(e *Env, gp string, progs []*Program, vendor bool) error {
 				// library packages of the program live under vendor/<their import path>
 				parts := strings.Split(filepath.ToSlash(rel), "/")
 				if len(parts) >= 2 && parts[1] != p.Pkgs[0].Dir {
-					dst = filepath.Join(base, "vendor", filepath.FromSlash(ModulePath), rel)
+					dst = filepath.Join(vbase, filepath.FromSlash(ModulePath), rel)
 				}
 			}
 			os.MkdirAll(filepath.Dir(dst), 0o755)
@@ -193,13 +199,17 @@ func CheckC16(e *Env) int {
 		prepareModule(e, rootB, append([]*Program{p}, others...))
 		record("module/other-root/with-other-packages", e.Wire(rootB, nil, "gen", "./..."), rootB)
 		// GOPATH layouts
-		for _, vendor := range []bool{false, true} {
+		for vi, vendor := range []bool{false, true, true} {
 			name := "gopath"
 			if vendor {
 				name = "gopath+vendor"
 			}
-			gp := filepath.Join(e.Scratch, "c16", fmt.Sprintf("g%03d-%v", i, vendor))
-			if err := writeGopath(e, gp, []*Program{p}, vendor); err != nil {
+			atPkg := vi == 2
+			if atPkg {
+				name = "gopath+vendor-in-package-dir"
+			}
+			gp := filepath.Join(e.Scratch, "c16", fmt.Sprintf("g%03d-%d", i, vi))
+			if err := writeGopath(e, gp, []*Program{p}, vendor, atPkg); err != nil {
 				runs = append(runs, layoutRun{Name: name, Err: err.Error()})
 				continue
 			}
